@@ -70,6 +70,18 @@ def c15_cases(tier, rng):
     for exts in ([], [b"DSN", b"SMTPUTF8", b"AUTH PLAIN"], EXTS, [b"8BITMIME"]):
         for h in hs:
             c = CC(exts=exts); c.call("hello", hx(h)); hostile.append(c.case())
+            # a host name refused locally must not be remembered: the implicit EHLO of the next method uses the old name
+            c = CC(exts=exts); c.call("hello", hx(b"mx" + h)); c.reply(OK)
+            nxt = rng.choice(["noop", "verify", "mail", "reset", "hello"])
+            if nxt == "mail":
+                c.peer.pop(); c.mail(b"s@x")
+            elif nxt == "verify":
+                c.call("verify", hx(b"u@x"))
+            elif nxt == "hello":
+                c.peer.pop(); c.call("hello", hx(b"good.example")); c.reply(OK); c.call("noop")
+            else:
+                c.call(nxt)
+            hostile.append(c.case())
             c = CC(exts=exts); c.call("verify", hx(h)); hostile.append(c.case())
             c = CC(exts=exts); c.mail(h + b"@x"); hostile.append(c.case())
             c = CC(exts=exts); c.mail(b"s@x", dict(envid=h, auth=h)); hostile.append(c.case())
